@@ -1,16 +1,16 @@
 CONSTANTS
-    Shape <- Shape4
+    Shape <- Shape3
     EpochOrderStrict = FALSE
     CacheSound = FALSE
     MaxAlter = 2
-    TamperFields = {"prev", "epoch", "avk", "params", "msgEpoch", "nextAvk", "nextParams", "signedMsg", "sig", "kind", "genSig"}
+    TamperFields = {"prev", "epoch", "avk", "params", "msgEpoch", "nextAvk", "nextParams", "sig", "kind"}
     ForgeEpochs = {1, 2, 3, 4}
     Forge2Pars = {"p"}
-    ForgeKeys = {"H2", "H3", "H4", "A"}
+    ForgeKeys = {"H3", "H4", "A"}
     ForgePars = {"p", "q"}
-    ForgeNextAvk = {"H3", "H4", "A"}
+    ForgeNextAvk = {"H4", "A"}
     ForgeNextPars = {"p", "q"}
-    ForgeLevels = 2
+    ForgeLevels = 1
 SPECIFICATION Spec
 INVARIANTS ChainSound Terminates
 CHECK_DEADLOCK FALSE
